@@ -26,6 +26,7 @@ class SimThread:
         self.state = 'new'        # new | ready | running | blocked | sleeping | done
         self.wake_cond = None
         self.wake_at = 0.0
+        self.deadline = None      # blocked with a timeout: runnable again at this virtual time whatever the condition says
         self.why = ''
         self.stalled = 0
         self.last_run = -1
@@ -117,6 +118,8 @@ class Sched:
                 out.append(t)
             elif t.state == 'blocked' and t.wake_cond is not None and t.wake_cond():
                 out.append(t)
+            elif t.state == 'blocked' and t.deadline is not None and t.deadline <= self.now:
+                out.append(t)
             elif t.state == 'sleeping' and t.wake_at <= self.now:
                 out.append(t)
         return out
@@ -150,9 +153,10 @@ class Sched:
                     nxt = r[self.sd.choice(len(r))]
                 nxt.last_run = self.steps
                 return nxt
-            sleepers = [t for t in self.threads if t.state == 'sleeping']
+            sleepers = [t.wake_at for t in self.threads if t.state == 'sleeping']
+            sleepers += [t.deadline for t in self.threads if t.state == 'blocked' and t.deadline is not None]
             if sleepers:
-                self.now = min(t.wake_at for t in sleepers)
+                self.now = min(sleepers)
                 continue
             return None
 
@@ -207,14 +211,16 @@ class Sched:
         me.why = why
         self.switch(me)
 
-    def block(self, cond, why):
+    def block(self, cond, why, timeout=None):
         me = self._mine()
         if me is None:
             return
         me.state = 'blocked'
         me.wake_cond = cond
+        me.deadline = None if timeout is None else self.now + max(0.0, timeout)
         me.why = why
         self.switch(me)
+        me.deadline = None
 
     def sleep(self, d):
         if d < 0:
@@ -284,9 +290,9 @@ def make_fakes(sched):
             sched.yield_point('Event.wait')
             if not self.flag:
                 sched.log('parked')
-                sched.block(lambda: self.flag, 'Event.wait')
+                sched.block(lambda: self.flag, 'Event.wait', timeout)
                 sched.log('unparked')
-            return True
+            return self.flag        # False: the timeout ran out, as threading.Event.wait reports it
 
     class FThread:
         def __init__(self, target=None, **kw):
@@ -307,7 +313,7 @@ def make_fakes(sched):
             if not self.st.started:
                 raise RuntimeError('cannot join thread before it is started')     # as threading.Thread does
             if self.st.started and self.st.state != 'done':
-                sched.block(lambda: self.st.state == 'done', 'Thread.join')
+                sched.block(lambda: self.st.state == 'done', 'Thread.join', timeout)     # a timed join just returns when time is up
 
     ft = types.SimpleNamespace(Event=FEvent, Thread=FThread)
     ftime = types.SimpleNamespace(time=sched.wall, sleep=sched.sleep)
